@@ -787,6 +787,7 @@ func (st *tunnelClientStream) readMsgLocked() (data []byte, ok bool, err error) 
 	msgLen := -1
 	var b []byte
 	for {
+		verifYield("client.read.beforeDequeue")
 		in, ok := st.receiver.dequeue()
 		if !ok {
 			return nil, true, st.loadDone()
